@@ -92,13 +92,14 @@ Definition s_bad : str := [98; 97; 100]%N.
 Definition s_new : str := [110; 101; 119]%N.
 Definition s_m1 : str := [109; 49]%N.
 (* time: 0 +1h   1 returns a str (invalid)   2 raises   3 identity
-         4 raises when t.second % 3 == 2 else +1h *)
+         4 raises when t.second % 3 == 2 else +1h   5 +1h expressed in the zone +05:00 *)
 Definition t_ctime (id : N) (t : Z) : option Z :=
   match id with
   | 0%N => Some (t + 3600000000)%Z
   | 1%N => None
   | 2%N => None
   | 3%N => Some t
+  | 5%N => Some (t + 3600000000)%Z                 (* +1h, returned in the zone +05:00: the same instant *)
   | _ => if Z.eqb (((t / 1000000) mod 60) mod 3)%Z 2%Z then None else Some (t + 3600000000)%Z
   end.
 (* measurement: 0 m + "x"   1 returns 5 (invalid)   2 identity   3 raises if m == "m1" else m + "y" *)
